@@ -148,6 +148,15 @@ def main():
         except Exception:
             notes.append("pre_props crashed: " + traceback.format_exc()[-1500:])
         props = check_props(pid)
+        if not props["ok"] and "inconsistent assumptions" in props["log"]:
+            # stale .vo files of the generated chain (a dependency was rebuilt): rebuild the chain once and retry
+            try:
+                for which in gen.translators_for(pid):
+                    gen.regen(which, force=True)
+                if hasattr(mod0, "pre_props"): mod0.pre_props()
+            except Exception:
+                pass
+            props = check_props(pid)
         if notes and any(n.startswith("translator/Gen") for n in notes):
             props["ok"] = False; props["log"] = "\n".join(notes) + "\n" + props["log"]
         if args.tier == "thorough":
